@@ -849,8 +849,9 @@ def run_case(res, spec, history, all_prefixes=False):
             alive = False
         elif history:
             res.monitor("edit-refused:" + kind, True)
-        # the invariant holds at every moment, also after a refused / rejected edit
-        found = check(w, kind, edited, build=not history)
+        # the invariant holds at every moment, also after a refused / rejected edit (after an edit that
+        # crashed the two sides are no longer in step: the crash itself is the finding)
+        found = [] if outcome.startswith("crash") else check(w, kind, edited, build=not history)
         for fkey, tags, what, probe, expected in found:
             res.fail(tags=tags, what=what, script=w.live.script(probe, expected), case=(key, text))
         _prefix_keys[(_spec_id(spec), history)] = "clean" if (alive and not found) else "dead"
@@ -1186,7 +1187,7 @@ def run(res, tier, seed):
         nsample = 12000
     else:
         plan = [(1, 2, 2, 1, VARIANTS), (1, 3, 2, 1, VARIANTS), (2, 2, 1, 1, VARIANTS),
-                (1, 4, 0, 0, VARIANTS[1:])]
+                (1, 4, 1, 0, VARIANTS[1:])]
         b0 = [(2, 1), (3, 1), (4, 0)]
         nsample = 700
     res.bound = (
